@@ -173,18 +173,19 @@ def tr(name, cfg, module, *args):
 
 
 ENGINES["orswot"]["traces"] = {
-    "quick": [tr("fifo4", "trace_orswot.cfg", "Trace_Orswot.tla", "--n", 4, "--m", 3, "--histories", 20, "--steps", 60, "--maxops", 14, "--regime", "fifo", "--merge", "--snap")],
+    "quick": [tr("fifo4", "trace_orswot.cfg", "Trace_Orswot.tla", "--n", 4, "--m", 3, "--histories", 60, "--steps", 90, "--maxops", 22, "--regime", "fifo", "--merge", "--snap")],
     "thorough": [tr("fifo4", "trace_orswot.cfg", "Trace_Orswot.tla", "--n", 4, "--m", 3, "--histories", 150, "--steps", 70, "--maxops", 16, "--regime", "fifo", "--merge", "--snap")],
 }
 ENGINES["orswot"]["trace_props"] = {"members": ["C04", "C01", "C03", "C08", "C09"], "ctx": ["C07", "C04"], "canon": ["C20"], "op": ["C07"]}
 ENGINES["mvreg"]["traces"] = {
-    "quick": [tr("any4", "trace_mvreg.cfg", "Trace_MVReg.tla", "--n", 4, "--m", 2, "--histories", 20, "--steps", 60, "--maxops", 12, "--regime", "any", "--merge", "--snap")],
+    "quick": [tr("any4", "trace_mvreg.cfg", "Trace_MVReg.tla", "--n", 4, "--m", 2, "--histories", 60, "--steps", 70, "--maxops", 12, "--regime", "any", "--merge", "--snap")],
     "thorough": [tr("any4", "trace_mvreg.cfg", "Trace_MVReg.tla", "--n", 4, "--m", 2, "--histories", 150, "--steps", 70, "--maxops", 14, "--regime", "any", "--merge", "--snap")],
 }
 ENGINES["mvreg"]["trace_props"] = {"values": ["C06", "C01", "C03", "C08", "C09"], "ctx": ["C07", "C06"], "canon": ["C20"], "op": ["C07", "C06"]}
 for _e, _d in (("map_or", "or"), ("map_mv", "mv"), ("map_map_mv", "map_mv"), ("map_map_or", "map_or")):
     ENGINES[_e]["traces"] = {
-        "quick": [tr("causal4", "trace_map_%s.cfg" % _d, "Trace_Map.tla", "--n", 4, "--m", 2, "--k", 3, "--histories", 15, "--steps", 50, "--maxops", 10, "--regime", "causal", "--merge")],
+        "quick": [tr("causal4", "trace_map_%s.cfg" % _d, "Trace_Map.tla", "--n", 4, "--m", 2, "--k", 3, "--histories", 40, "--steps", 80, "--maxops", 16, "--regime", "causal", "--merge"),
+                  tr("fifo4", "trace_map_%s.cfg" % _d, "Trace_Map.tla", "--n", 4, "--m", 2, "--k", 3, "--histories", 30, "--steps", 80, "--maxops", 14, "--regime", "fifo", "--merge")],
         "thorough": [tr("causal4", "trace_map_%s.cfg" % _d, "Trace_Map.tla", "--n", 4, "--m", 2, "--k", 3, "--histories", 100, "--steps", 60, "--maxops", 12, "--regime", "causal", "--merge"),
                      tr("fifo4", "trace_map_%s.cfg" % _d, "Trace_Map.tla", "--n", 4, "--m", 2, "--k", 3, "--histories", 100, "--steps", 60, "--maxops", 12, "--regime", "fifo", "--merge")],
     }
@@ -250,17 +251,17 @@ _t("merkle", [{"cfg": "merkle_th.cfg", "module": "MC_Merkle.tla", "flags": ["--p
 
 # ---- more implementation traces: List, GList, MerkleReg --------------------------------------------
 ENGINES["list"]["traces"] = {
-    "quick": [tr("causal4", "trace_list.cfg", "Trace_List.tla", "--n", 4, "--histories", 15, "--steps", 50, "--maxops", 10, "--regime", "causal")],
+    "quick": [tr("causal4", "trace_list.cfg", "Trace_List.tla", "--n", 4, "--histories", 40, "--steps", 80, "--maxops", 16, "--regime", "causal")],
     "thorough": [tr("causal4", "trace_list.cfg", "Trace_List.tla", "--n", 4, "--histories", 100, "--steps", 60, "--maxops", 12, "--regime", "causal")],
 }
 ENGINES["list"]["trace_props"] = {"seq": ["C12", "C01"], "op": ["C12", "C13", "C14"], "index": ["C13"]}
 ENGINES["glist"]["traces"] = {
-    "quick": [tr("any4", "trace_glist.cfg", "Trace_List.tla", "--n", 4, "--histories", 15, "--steps", 50, "--maxops", 8, "--regime", "any", "--merge", "--snap")],
+    "quick": [tr("any4", "trace_glist.cfg", "Trace_List.tla", "--n", 4, "--histories", 40, "--steps", 80, "--maxops", 14, "--regime", "any", "--merge", "--snap")],
     "thorough": [tr("any4", "trace_glist.cfg", "Trace_List.tla", "--n", 4, "--histories", 100, "--steps", 60, "--maxops", 10, "--regime", "any", "--merge", "--snap")],
 }
 ENGINES["glist"]["trace_props"] = {"seq": ["C13", "C01", "C03", "C08"], "op": ["C13", "C14"], "index": ["C13"]}
 ENGINES["merkle"]["traces"] = {
-    "quick": [tr("any4", "trace_merkle.cfg", "Trace_Merkle.tla", "--n", 4, "--m", 2, "--histories", 15, "--steps", 50, "--maxops", 8, "--regime", "any", "--merge", "--snap")],
+    "quick": [tr("any4", "trace_merkle.cfg", "Trace_Merkle.tla", "--n", 4, "--m", 2, "--histories", 40, "--steps", 80, "--maxops", 14, "--regime", "any", "--merge", "--snap")],
     "thorough": [tr("any4", "trace_merkle.cfg", "Trace_Merkle.tla", "--n", 4, "--m", 2, "--histories", 100, "--steps", 60, "--maxops", 10, "--regime", "any", "--merge", "--snap")],
 }
 ENGINES["merkle"]["trace_props"] = {"heads": ["C15", "C01", "C03", "C08"], "nodeset": ["C15", "C20"]}
@@ -279,7 +280,7 @@ def _str(kind, hist):
 
 
 ENGINES["simple"]["traces"] = {
-    "quick": [_str(k, 15) for k in ("pncounter", "lww", "min")],
+    "quick": [_str(k, 40) for k in ("pncounter", "lww", "min")],
     "thorough": [_str(k, 80) for k in ("gcounter", "pncounter", "lww", "max", "min", "gset")],
 }
 ENGINES["simple"]["trace_props"] = {"read": ["C11", "C01", "C03", "C08"], "canon": ["C11", "C09"]}
